@@ -302,8 +302,15 @@ func fuSlice[T any](x *fuCtx, name, elem string, ctor func(string, []T) zap.Fiel
 	}
 	for _, l := range lists {
 		x.n++
+		before := append([]T(nil), l...)
 		f := ctor("k", l)
 		calls, pv := record(f)
+		for i := range l {
+			if !sameValue(interface{}(before[i]), interface{}(l[i])) && !reflect.DeepEqual(before[i], l[i]) {
+				x.bad("C03/caller-slice-modified:"+name, "%s changed element %d of the slice it was given from %#v to %#v", name, i, before[i], l[i])
+				break
+			}
+		}
 		if pv != nil || len(calls) != 1 || calls[0].M != "AddArray" || calls[0].K != "k" || len(calls[0].Sub) != len(l) {
 			x.bad("C03/delivered-value-differs:"+name, "%s(%d elements) delivered %s (panic %v), want one array of %d elements", name, len(l), showCalls(calls), pv, len(l))
 			continue
@@ -574,7 +581,10 @@ func checkC03(c *Ctx) {
 	if ny == nil {
 		ny = time.FixedZone("EST", -5*3600)
 	}
-	locs := []*time.Location{time.UTC, time.Local, time.FixedZone("", 0), time.FixedZone("x", 14*3600), time.FixedZone("neg", -12*3600-1), ny}
+	// zones are identified by their rules, not by their names: two unnamed zones (as time.Parse makes for numeric
+	// offsets) and two different zones both called EST are in the list
+	locs := []*time.Location{time.UTC, time.Local, time.FixedZone("", 0), time.FixedZone("x", 14*3600), time.FixedZone("neg", -12*3600-1), ny,
+		time.FixedZone("", 19800), time.FixedZone("", 7200), time.FixedZone("EST", -5*3600), time.FixedZone("EST", 10*3600), time.FixedZone("x", -14*3600)}
 	minT := time.Unix(0, math.MinInt64)
 	maxT := time.Unix(0, math.MaxInt64)
 	baseTimes := []time.Time{{}, time.Unix(0, 0), minT, maxT, minT.Add(-1), maxT.Add(1), minT.Add(1), maxT.Add(-1), time.Date(1, 1, 1, 0, 0, 0, 1, time.UTC), time.Date(9999, 12, 31, 23, 59, 59, 999999999, time.UTC), time.Date(-500, 1, 1, 0, 0, 0, 0, time.UTC), time.Date(2262, 4, 11, 23, 47, 16, 854775807, time.UTC), time.Date(2262, 4, 11, 23, 47, 16, 854775808, time.UTC), time.Now()}
@@ -789,6 +799,40 @@ func fuStructured(x *fuCtx) {
 	one("Object", zap.Object("k", fuObj{7}), []recCall{{M: "AddObject", K: "k", Sub: []recCall{{M: "AddInt", K: "a", V: 7}}}})
 	one("Inline", zap.Inline(fuObj{7}), []recCall{{M: "AddInt", K: "a", V: 7}})
 	one("Dict", zap.Dict("k", zap.Int64("a", 1), zap.String("b", "x")), []recCall{{M: "AddObject", K: "k", Sub: []recCall{{M: "AddInt64", K: "a", V: int64(1)}, {M: "AddString", K: "b", V: "x"}}}})
+	// a field list with no-op members ahead of real ones, given to Dict / Any and used again afterwards
+	{
+		mk := func() []zap.Field {
+			return []zap.Field{zap.Skip(), zap.Error(nil), zap.String("user", "alice"), zap.Skip(), zap.Int64("attempt", 3), zap.NamedError("cause", nil), zap.Bool("last", true)}
+		}
+		want := []recCall{{M: "AddString", K: "user", V: "alice"}, {M: "AddInt64", K: "attempt", V: int64(3)}, {M: "AddBool", K: "last", V: true}}
+		for name, ctor := range map[string]func([]zap.Field) zap.Field{
+			"Dict":           func(fs []zap.Field) zap.Field { return zap.Dict("k", fs...) },
+			"Any([]Field)":   func(fs []zap.Field) zap.Field { return zap.Any("k", fs) },
+			"DictObject":     func(fs []zap.Field) zap.Field { return zap.Object("k", zap.DictObject(fs...)) },
+		} {
+			fs, pristine := mk(), mk()
+			f := ctor(fs)
+			calls, pv := record(f)
+			if pv != nil || len(calls) != 1 || !sameCalls(calls[0].Sub, want) {
+				x.bad("C03/delivered-value-differs:Dict", "%s of a list with no-op members delivered %s (panic %v)", name, showCalls(calls), pv)
+			}
+			for i := range fs {
+				if !fs[i].Equals(pristine[i]) {
+					x.bad("C03/caller-slice-modified:Dict", "%s rewrote the caller's field list: element %d is now %+v, it was %+v (the list is still the caller's and may be logged again)", name, i, fs[i], pristine[i])
+					break
+				}
+			}
+			// the same list logged directly afterwards delivers what it always did
+			var again []recCall
+			for _, ff := range fs {
+				c2, _ := record(ff)
+				again = append(again, c2...)
+			}
+			if !sameCalls(again, want) {
+				x.bad("C03/caller-slice-modified:Dict", "after %s the caller's own list delivers %s, want %s", name, showCalls(again), showCalls(want))
+			}
+		}
+	}
 	one("Array", zap.Array("k", fuArrStr{1, 2}), []recCall{{M: "AddArray", K: "k", Sub: []recCall{{M: "AppendInt", V: 1}, {M: "AppendInt", V: 2}}}})
 	one("Objects", zap.Objects("k", []fuObj{{1}, {2}}), []recCall{{M: "AddArray", K: "k", Sub: []recCall{{M: "AppendObject", Sub: []recCall{{M: "AddInt", K: "a", V: 1}}}, {M: "AppendObject", Sub: []recCall{{M: "AddInt", K: "a", V: 2}}}}}})
 	one("ObjectValues", zap.ObjectValues("k", []fuObjPtr{{1}, {2}}), []recCall{{M: "AddArray", K: "k", Sub: []recCall{{M: "AppendObject", Sub: []recCall{{M: "AddInt", K: "v", V: 1}}}, {M: "AppendObject", Sub: []recCall{{M: "AddInt", K: "v", V: 2}}}}}})
